@@ -121,14 +121,22 @@ HARNESSES = [
     tab_h("temp.real", "H_TEMP", "harness_temp", ["BS_N=4", "NMAXT=4"], {"lib/tree_decode.c": ["build_tree"]},
           {"read_length_value.0": 31, "ref_length.0": 31, "read_temp_table.0": 5, "read_temp_table.1": 6, "harness_temp.0": 37, "harness_temp.1": 5, "harness_temp.2": 6, "read_from_tree.0": 2},
           "read_temp_table with the real read_length_value on an arbitrary <= 32-bit string, tables of n <= 4 entries (skip field included), unary extensions of any length", units="read_temp_table,read_length_value", tier="thorough", timeout=1800),
-    tab_h("code", "H_CODE", "harness_code", ["NC=24", "KMAX=4"], {"lib/tree_decode.c": ["build_tree", "read_from_tree"]},
+    tab_h("code", "H_CODE", "harness_code", ["NC=24", "KMAX=3"], {"lib/tree_decode.c": ["build_tree", "read_from_tree"]},
+          {"read_code_table.0": 27, "read_code_table.1": 5, "harness_code.0": 34, "harness_code.1": 27, "harness_code.2": 27, "harness_code.3": 27, "harness_code.4": 5, "real_read_from_tree.0": 2},
+          "read_code_table with NUM_CODES = 24 (template instantiated small): arbitrary n <= 24, arbitrary temp-symbol sequence 0..30 of at most 3 symbols, arbitrary bit fields (field-sequence model of the bit string), input ending after any field: all three zero-run classes incl. runs clipped at the table end",
+          units="read_code_table,read_skip_count", extra_stubs=["read_from_tree(temp tree): arbitrary pre-drawn symbol sequence 0..30, consumed identically by the reference", "bit reader: field-sequence model (k-th read returns the low n bits of the k-th arbitrary field; widths logged and compared)"], tier="both", timeout=400),
+    tab_h("code.k4", "H_CODE", "harness_code", ["NC=24", "KMAX=4"], {"lib/tree_decode.c": ["build_tree", "read_from_tree"]},
           {"read_code_table.0": 27, "read_code_table.1": 6, "harness_code.0": 34, "harness_code.1": 27, "harness_code.2": 27, "harness_code.3": 27, "harness_code.4": 6, "real_read_from_tree.0": 2},
           "read_code_table with NUM_CODES = 24 (template instantiated small): arbitrary n <= 24, arbitrary temp-symbol sequence 0..30 of at most 4 symbols, arbitrary bit fields (field-sequence model of the bit string), input ending after any field: all three zero-run classes incl. runs clipped at the table end",
-          units="read_code_table,read_skip_count", extra_stubs=["read_from_tree(temp tree): arbitrary pre-drawn symbol sequence 0..30, consumed identically by the reference"], timeout=600),
+          units="read_code_table,read_skip_count", extra_stubs=["read_from_tree(temp tree): arbitrary pre-drawn symbol sequence 0..30, consumed identically by the reference", "bit reader: field-sequence model (k-th read returns the low n bits of the k-th arbitrary field; widths logged and compared)"], tier="thorough", timeout=1200),
+    tab_h("code.k6", "H_CODE", "harness_code", ["NC=24", "KMAX=6"], {"lib/tree_decode.c": ["build_tree", "read_from_tree"]},
+          {"read_code_table.0": 27, "read_code_table.1": 8, "harness_code.0": 34, "harness_code.1": 27, "harness_code.2": 27, "harness_code.3": 27, "harness_code.4": 8, "real_read_from_tree.0": 2},
+          "read_code_table with NUM_CODES = 24 (template instantiated small): arbitrary n <= 24, arbitrary temp-symbol sequence 0..30 of at most 6 symbols, arbitrary bit fields (field-sequence model of the bit string), input ending after any field: all three zero-run classes incl. runs clipped at the table end",
+          units="read_code_table,read_skip_count", extra_stubs=["read_from_tree(temp tree): arbitrary pre-drawn symbol sequence 0..30, consumed identically by the reference", "bit reader: field-sequence model (k-th read returns the low n bits of the k-th arbitrary field; widths logged and compared)"], tier="thorough", timeout=1800),
     tab_h("code.full", "H_CODE", "harness_code", ["NC=24"], {"lib/tree_decode.c": ["build_tree", "read_from_tree"]},
           {"read_code_table.0": 27, "read_code_table.1": 27, "harness_code.0": 34, "harness_code.1": 27, "harness_code.2": 27, "harness_code.3": 27, "harness_code.4": 27, "real_read_from_tree.0": 2},
-          "read_code_table with NUM_CODES = 24: as tables.code without the limit on the number of temp symbols",
-          units="read_code_table,read_skip_count", extra_stubs=["read_from_tree(temp tree): arbitrary pre-drawn symbol sequence 0..30, consumed identically by the reference"], tier="thorough", timeout=1800),
+          "read_code_table with NUM_CODES = 24 (template instantiated small): arbitrary n <= 24, arbitrary temp-symbol sequence 0..30 of any length, arbitrary bit fields (field-sequence model of the bit string), input ending after any field: all three zero-run classes incl. runs clipped at the table end",
+          units="read_code_table,read_skip_count", extra_stubs=["read_from_tree(temp tree): arbitrary pre-drawn symbol sequence 0..30, consumed identically by the reference", "bit reader: field-sequence model (k-th read returns the low n bits of the k-th arbitrary field; widths logged and compared)"], tier="thorough", timeout=1800),
     tab_h("off4", "H_OFF", "harness_off", ["BS_N=4", "OB=4", "LENSTUB"], {"lib/tree_decode.c": ["build_tree"], "lib/lh_new_decoder.c": ["read_length_value"]},
           {"read_offset_table.0": 18, "harness_off.0": 18, "harness_off.1": 66, "harness_off.2": 18, "read_from_tree.0": 2},
           "read_offset_table with OFFSET_BITS 4 (-lh4/5-): every n 0..15, arbitrary length values, any alignment, truncation", units="read_offset_table", extra_stubs=["read_length_value: arbitrary pre-drawn value per call, no bits consumed, call positions logged (real function vs format: tables.len)"]),
@@ -144,5 +152,31 @@ HARNESSES = [
     tab_h("blockhdr", "H_BLOCKHDR", "harness_blockhdr", ["BS_N=4"], {"lib/tree_decode.c": ["build_tree"], "lib/lh_new_decoder.c": ["read_temp_table", "read_code_table", "read_offset_table"]},
           {}, "start_new_block on an arbitrary <= 32-bit string; the three table readers replaced by recording stubs with arbitrary results", units="start_new_block",
           extra_stubs=["read_temp_table/read_code_table/read_offset_table: record call order, return arbitrary success/failure (each verified by its own tables.* harness)"]),
+    # ---- H01.block
+    dict(name="block.account", src="C01/block.c", rename_defs=rn({"lib/tree_decode.c": ["read_from_tree"], "lib/lh_new_decoder.c": ["start_new_block"]}),
+         unwindset={"lha_lh_new_read.0": 6, "copy_from_history.0": 258, "bs_ref.0": 6, "harness.0": 6, "harness.1": 6, "harness.2": 18, "harness.3": 6},
+         units=["lib/lh_new_decoder.c:lha_lh_new_read"], timeout=300, mem_gb=4, backend="cadical",
+         bounds="template at HISTORY_BITS 4; arbitrary block_remaining, up to 4 consecutive block headers (arbitrary counts incl. 0, arbitrary failure), arbitrary command",
+         stubs=[SPECSTUB, RFTSTUB, "start_new_block: arbitrary header sequence (count / failure), asserts it is entered only with block_remaining == 0 (real function: tables.blockhdr)"]),
+    # ---- H01.params
+] + [
+    dict(name="params." + m, src="C01/params.c", defines=["M_" + m.upper()], units=["lib/%s_decoder.c" % m, "lib/lh_new_decoder.c (parameters)"], timeout=300,
+         bounds="compile-time parameters and decoder type record of the real instantiation", unwind=2)
+    for m in ("lh5", "lh6", "lh7", "lhx", "lk7")
+] + [
+    dict(name="params.names", src="C01/params.c", entry="harness_names", defines=["M_NAMES"],
+         extra_srcs=["lib/lh1_decoder.c", "lib/lh5_decoder.c", "lib/lh6_decoder.c", "lib/lh7_decoder.c", "lib/lhx_decoder.c", "lib/lk7_decoder.c",
+                     "lib/lz5_decoder.c", "lib/lzs_decoder.c", "lib/null_decoder.c", "lib/pm1_decoder.c", "lib/pm2_decoder.c", "lib/crc16.c"],
+         unwindset={"lha_decoder_for_name.0": 16, "strcmp.0": 8, "strcpy.0": 8}, units=["lib/lha_decoder.c:decoders[],lha_decoder_for_name"], timeout=300,
+         bounds="the six method names through the real lha_decoder_for_name, all decoder objects linked"),
+    # ---- H01.e2e
+    dict(name="e2e.lh5", src="C01/e2e.c", defines=["LENMAX=8"], flags=["--arrays-uf-always"], backend="cadical",
+         unwindset={"put.0": 18, "harness.0": 10, "harness.1": 10, "harness.2": 10, "harness.3": 10, "harness.4": 10, "harness.5": 10, "harness.6": 10, "harness.7": 10,
+                    "memset.0": 16386, "init_tree.0": 1022, "peek_bits.0": 6, "peek_bits.1": 6, "cb_read.0": 6, "lha_lh_new_read.0": 3,
+                    "copy_from_history.0": 10, "read_from_tree.0": 2, "read_length_value.0": 2, "read_temp_table.0": 2, "read_temp_table.1": 2,
+                    "read_code_table.0": 2, "read_code_table.1": 2, "read_offset_table.0": 2, "build_tree.0": 2, "add_codes_with_length.0": 2, "expand_queue.0": 2},
+         units=["lib/lh5_decoder.c (whole): lha_lh_new_init, lha_lh_new_read, start_new_block, table readers (n=0 forms), read_from_tree, copy_from_history, bit reader"],
+         timeout=600, mem_gb=6,
+         bounds="real -lh5- decoder, no stubs: two blocks with single-symbol tables (symbolic literal, symbolic copy code with length <= 8, symbolic offset symbol 0..14 and extra bits), 2 literals + 2 copies, arbitrary short reads of the callback",
+         stubs=["cb_read: symbolic stream with short reads"]),
 ]
-
